@@ -727,6 +727,10 @@ func (u *Unit) anchorInRegion(anchor string, nodes []ast.Node) bool {
 				if anchor == "send:"+exprText(x.Chan) {
 					found = true
 				}
+			case *ast.UnaryExpr:
+				if x.Op == token.ARROW && anchor == "recv:"+exprText(x.X) {
+					found = true
+				}
 			case *ast.ReturnStmt:
 				if anchor == "return" {
 					found = true
@@ -1288,14 +1292,38 @@ func (u *Unit) execSelect(st *State, x *ast.SelectStmt, label string) []*Out {
 			case *ast.SendStmt:
 				u.execSend(s, cm)
 			case *ast.ExprStmt:
-				u.eval(s, cm.X)
+				v := u.eval(s, cm.X)
+				u.recvAnchor(s, cm.X, &v)
 			case *ast.AssignStmt:
 				u.execAssign(s, cm)
+				if len(cm.Rhs) == 1 {
+					if lv := cm.Lhs[0]; lv != nil {
+						if id, ok := lv.(*ast.Ident); ok && id.Name != "_" {
+							v := u.eval(s, id)
+							u.recvAnchor(s, cm.Rhs[0], &v)
+						} else {
+							u.recvAnchor(s, cm.Rhs[0], nil)
+						}
+					}
+				}
 			}
 		}
 		outs = append(outs, u.execBlock(s, c.Body)...)
 	}
 	return u.joinNormals(u.breakToNormal(outs, label))
+}
+
+// recvAnchor runs ghost statements anchored at "recv:<channel expression>".
+func (u *Unit) recvAnchor(st *State, e ast.Expr, v *Value) {
+	ue, ok := ast.Unparen(e).(*ast.UnaryExpr)
+	if !ok || ue.Op != token.ARROW || len(u.frames) != 1 {
+		return
+	}
+	extra := map[string]Value{}
+	if v != nil && len(v.L) > 0 {
+		extra["v"] = *v
+	}
+	u.runAnchorsNamed(st, "recv:"+exprText(ue.X), e.Pos(), extra)
 }
 
 func (u *Unit) siteName(n ast.Node) string {
